@@ -13,6 +13,7 @@ pub mod c10;
 pub mod c11;
 pub mod c12;
 pub mod c13;
+pub mod c14;
 
 use crate::ctx::Ctx;
 use crate::report::Report;
@@ -33,6 +34,7 @@ pub fn dispatch(ctx: &Ctx, rep: &mut Report) -> bool {
         "C11" => c11::run(ctx, rep),
         "C12" => c12::run(ctx, rep),
         "C13" => c13::run(ctx, rep),
+        "C14" => c14::run(ctx, rep),
         _ => return false,
     }
     true
